@@ -14,7 +14,15 @@ import (
 // RNG is SplitMix64; every random choice of every generator derives from one seed.
 type RNG struct{ s uint64 }
 
-func NewRNG(seed uint64) *RNG { return &RNG{s: seed*0x9E3779B97F4A7C15 + 0x1234567} }
+func NewRNG(seed uint64) *RNG {
+	// the seed is mixed first: without it the streams of consecutive seeds are one SplitMix64 stream
+	// shifted by one draw, and shards seeded seed*K+shard would generate overlapping cases
+	z := seed + 0x9E3779B97F4A7C15
+	z = (z ^ (z >> 30)) * 0xBF58476D1CE4E5B9
+	z = (z ^ (z >> 27)) * 0x94D049BB133111EB
+	z ^= z >> 31
+	return &RNG{s: z*0x9E3779B97F4A7C15 + 0x1234567}
+}
 
 func (r *RNG) Next() uint64 {
 	r.s += 0x9E3779B97F4A7C15
